@@ -67,6 +67,9 @@ type vfGen struct {
 	nextID uint64
 	// fixLow: next-hops and groups of the pre-state live in the default instance
 	fixLow bool
+	// splitLow: the first next-hop / group lives in the default instance, the second in the VRF
+	splitLow bool
+	nLow     map[string]int
 	// rich: pre-state operations also vary the presence of optional payload fields
 	rich bool
 }
@@ -74,6 +77,16 @@ type vfGen struct {
 func (g *vfGen) id() uint64 { g.nextID++; return g.nextID }
 
 func (g *vfGen) lowNI(name string) string {
+	if g.splitLow {
+		if g.nLow == nil {
+			g.nLow = map[string]int{}
+		}
+		g.nLow[name]++
+		if g.nLow[name]%2 == 1 {
+			return "DEFAULT"
+		}
+		return "VRF-A"
+	}
 	if g.fixLow {
 		return "DEFAULT"
 	}
@@ -188,6 +201,8 @@ type vfPreCfg struct {
 	// nStale: held REPLACE operations whose key has since been deleted
 	// (history: ADD key, REPLACE key with an unresolvable reference -> held, DELETE key)
 	nStale int
+	// heldTopOnly: held operations are top-level entries (not groups)
+	heldTopOnly bool
 	members            int
 	topKinds           []int
 }
@@ -215,7 +230,7 @@ func vfCanonical(r *RIB, ref *vfRef, g *vfGen, c vfPreCfg) {
 	for i := 0; i < c.nHeld; i++ {
 		if vfBool(g.pfx+"pre.held.live") {
 			var d *vfOpD
-			if vfBool(g.pfx+"pre.held.isNHG") {
+			if !c.heldTopOnly && vfBool(g.pfx+"pre.held.isNHG") {
 				d = g.nhg(g.pfx+"pre.held", c.members)
 			} else {
 				d = g.top(g.pfx+"pre.held", c.topKinds[vfInt(g.pfx+"pre.held.kind", 0, len(c.topKinds)-1)])
@@ -248,6 +263,7 @@ type vfRunCfg struct {
 	pre      vfPreCfg
 	rich     bool
 	fixLow   bool
+	splitLow bool
 	steps    int
 	members  int
 	typLo    int
@@ -264,7 +280,7 @@ func vfRIBRun(c vfRunCfg) {
 		fwd = vfBool("forward-references")
 	}
 	r, ref := vfNewPair(fwd)
-	g := &vfGen{rich: c.rich, fixLow: c.fixLow}
+	g := &vfGen{rich: c.rich, fixLow: c.fixLow, splitLow: c.splitLow}
 	pre := c.pre
 	if !fwd {
 		pre.nHeld = 0
